@@ -181,6 +181,21 @@ func (eng *Engine) scanStructural(pi *PkgInfo, sd *Structural) (bad []string, si
 							bad = append(bad, fmt.Sprintf("store to %s in %s stores %s, not the constant %s", n, site(f, in), got, sd.Value))
 						}
 					}
+				case "uses":
+					// any access (read or write) to a struct field: the field is private to the listed functions
+					fa, isFA := in.(*ssa.FieldAddr)
+					if !isFA {
+						continue
+					}
+					st0 := fa.X.Type().Underlying().(*types.Pointer).Elem()
+					n := typeName(st0) + "." + structOf(st0).Field(fa.Field).Name()
+					if !matchName(n) {
+						continue
+					}
+					sites++
+					if !ok {
+						bad = append(bad, "use of "+n+" in "+site(f, in))
+					}
 				case "calls":
 					ci, isCall := in.(ssa.CallInstruction)
 					if !isCall {
